@@ -2,7 +2,7 @@
 //
 // legUDPHistories: ONE packet Sniffer lives through a sequence of datagrams and compactions, the way a
 // PacketSniffer session of control/udp.go does (AppendData+SniffUdp per datagram, CompactPacketState when the caller
-// stops holding datagrams, the session reused afterwards). Every history of length <= 4 over a 7-symbol alphabet.
+// stops holding datagrams, the session reused afterwards). Every history of length <= 4 over a 9-symbol alphabet.
 //
 // legTCPGlue: TWO connections go through the real control.prefetchForTcpSniff -> prefixedConn -> ConnSniffer glue of
 // control/tcp.go in every interleaving of their (probe, sniff, relay) steps: each relay must receive exactly what its
@@ -101,8 +101,13 @@ func legUDPHistories(thorough bool) {
 	bad := clone(p2)
 	bad[len(bad)-9] ^= 0x10 // Initial-shaped, same DCID, does not decrypt
 	nonq := []byte("\x17\x03\x03 not a long-header packet")
+	// the same Initials with a packet of another kind coalesced behind them (RFC 9000 section 12.2): what is left of such a
+	// datagram behind its Initial must not be looked at again when the next datagram arrives
+	p1z := cat(p1, otherPacket(quicV1, trZeroRTT, quicDcid, nil))
+	sk := cat(short, otherPacket(quicV1, trShort, quicDcid, nil))
 	alpha := []histSym{
 		{"P1", p1, true}, {"P2", p2, true}, {"W", whole, true}, {"S", short, true}, {"X", bad, false}, {"N", nonq, false}, {"C", nil, false},
+		{"P1z", p1z, true}, {"Sk", sk, true},
 	}
 	if !(len(short) < len(p2) && len(p2) < len(whole) && len(whole) < len(p1)) {
 		report("udp-history", "harness", "0", fmt.Sprintf("datagram lengths not ordered: S=%d P2=%d W=%d P1=%d", len(short), len(p2), len(whole), len(p1)), nil)
@@ -130,7 +135,7 @@ func legUDPHistories(thorough bool) {
 	cases := R.Counter("udp_history_cases")
 	found := R.Counter("udp_history_name_found")
 	diffs := R.Counter("udp_history_fresh_sniffer_comparisons")
-	R.Sample(map[string]any{"leg": "udp-history", "alphabet": "P1=Initial with CRYPTO[0,70)+padding, P2=Initial with CRYPTO[70,end), W=whole hello, S=short Initial (PING/PADDING), X=P2 with one ciphertext bit flipped, N=not a long-header packet, C=CompactPacketState",
+	R.Sample(map[string]any{"leg": "udp-history", "alphabet": "P1=Initial with CRYPTO[0,70)+padding, P2=Initial with CRYPTO[70,end), W=whole hello, S=short Initial (PING/PADDING), X=P2 with one ciphertext bit flipped, N=not a long-header packet, C=CompactPacketState, P1z=P1 with a 0-RTT packet coalesced behind it, Sk=S with a short-header packet behind it",
 		"example": "P1 X C P1 P2", "P1": hx(p1), "P2": hx(p2)})
 	R.ParallelFor(len(hists), func(hi int) {
 		h := hists[hi]
@@ -278,6 +283,15 @@ func legTCPGlue() {
 		{"binary-3", [][]byte{{0x00, 0x01, 0x02}, later1}},
 		{"silent", nil},
 	}
+	// a ClientHello of 8 KiB (post-quantum key share) arriving in 1400-byte segments: many reads behind the 16-byte probe
+	if bigSpec, ok := sizedHello(helloSpec{ver: 13, sidLen: 32, nCS: 2, exts: []int{extSV, extSNI}, sni: []sniEntry{{0, "glue-big.example.net"}}, bulkKind: bulkKeyShare, bulkAt: 0}, 8192); ok {
+		big := tlsRecord(13, buildHello(bigSpec).hs)
+		var chunks [][]byte
+		for o := 0; o < len(big); o += 1400 {
+			chunks = append(chunks, big[o:min(o+1400, len(big))])
+		}
+		conns = append(conns, glueConn{"tls-8k-in-1400s", append(chunks, later1)})
+	}
 	// every merge of A's (probe, sniff, relay) with B's (probe, sniff, relay)
 	var merges [][]int // 0 = next step of A, 1 = next step of B
 	var rec2 func(cur []int, a, b int)
@@ -298,7 +312,7 @@ func legTCPGlue() {
 	sniffed := R.Counter("tcp_glue_sniffed_connections")
 	plain := R.Counter("tcp_glue_unsniffed_connections")
 	R.Set("tcp_glue_interleavings", len(merges))
-	R.Sample(map[string]any{"leg": "tcp-glue", "connections": []string{"tls", "tls-7+rest", "http", "ssh-banner", "binary-3", "silent"}, "steps": "probe (control.prefetchForTcpSniff + isLikelyHttpOrTLSPrefix), sniff (ConnSniffer.SniffTcp when the gate says so), relay (drain to end of stream)", "interleavings": len(merges)})
+	R.Sample(map[string]any{"leg": "tcp-glue", "connections": []string{"tls", "tls-7+rest", "http", "ssh-banner", "binary-3", "silent", "tls-8k-in-1400s"}, "steps": "probe (control.prefetchForTcpSniff + isLikelyHttpOrTLSPrefix), sniff (ConnSniffer.SniffTcp when the gate says so), relay (drain to end of stream)", "interleavings": len(merges)})
 	// sequential on one goroutine: the probe buffers come from a sync.Pool, whose reuse pattern is per P
 	for ai, a := range conns {
 		for bi, b := range conns {
@@ -365,6 +379,10 @@ func glueStep(s *glueState, step, route int) {
 		}
 	case 2:
 		limit := len(s.conn.all)
+		if s.cs != nil && s.cs.VerifReadWouldBlock() {
+			s.failed = "relay would block for ever: SniffTcp returned with the data-ready gate shut"
+			return
+		}
 		if s.cs != nil {
 			r := 0
 			if route == 1 {
